@@ -7,8 +7,9 @@ import (
 	"regexp"
 	"sort"
 	"strings"
-	"sync"
 	"time"
+
+	"golang.org/x/tools/go/ssa"
 )
 
 func main() {
@@ -92,27 +93,20 @@ func cmdSweep(args []string) {
 	if *kinds != "" {
 		extra = strings.Split(*kinds, ",")
 	}
-	results := make([]*FuncResult, len(ns))
-	var wg sync.WaitGroup
-	sem := make(chan bool, 8)
-	for i, n := range ns {
-		wg.Add(1)
-		go func(i int, n string) {
-			defer wg.Done()
-			sem <- true
-			results[i] = e.verifyFunc(e.funcs[n], extra)
-			<-sem
-		}(i, n)
+	var fns []*ssa.Function
+	for _, n := range ns {
+		fns = append(fns, e.funcs[n])
 	}
-	wg.Wait()
+	var lems []*Lemma
 	if *lem != "" {
 		lre := regexp.MustCompile(*lem)
 		for _, lm := range e.lemmas {
 			if lre.MatchString(lm.Name) {
-				results = append(results, e.verifyLemma(lm))
+				lems = append(lems, lm)
 			}
 		}
 	}
+	results := e.generateAll(fns, lems, extra)
 	fmt.Fprintf(os.Stderr, "generated in %.1fs\n", time.Since(t0).Seconds())
 	solveAll(results, solveCfg{quickS: 3, fullS: *to, workers: 16})
 	nd, nf := 0, 0
@@ -133,7 +127,14 @@ func cmdSweep(args []string) {
 			fmt.Printf("%-14s %s  [%s] %s %.2fs %v\n", ob.Status, ob.Name, ob.Pos, ob.Backend, ob.Time, ob.Model)
 			if *dump != "" {
 				os.MkdirAll(*dump, 0o755)
-				os.WriteFile(fmt.Sprintf("%s/%s.smt2", *dump, sanitize(ob.Name)), []byte(ob.Script), 0o644)
+				nm := sanitize(ob.Name)
+				if len(nm) > 150 {
+					nm = nm[:150]
+				}
+				os.WriteFile(fmt.Sprintf("%s/%s.smt2", *dump, nm), []byte(ob.Script), 0o644)
+				if ob.InstScript != "" {
+					os.WriteFile(fmt.Sprintf("%s/%s.inst.smt2", *dump, nm), []byte(ob.InstScript), 0o644)
+				}
 			}
 		}
 		if len(r.Partial) > 0 && *verbose {
